@@ -72,7 +72,7 @@ func (C02) Meta() core.Meta {
 		Real:       []string{"filippo.io/age Decrypt", "internal/stream Reader", "internal/format Parse", "armor Reader (rearmor runs)"},
 		Stub:       []string{"ciphertext source (SimSource) and its delivery schedule", "storage image (damaged copy of what SimDisk recorded)", "crypto/rand.Reader (tape)", "byzantine writer (reference model with the file key)"},
 		FaultKinds: []string{"fault.trunc", "fault.flip", "fault.insert", "fault.delete", "fault.extend", "fault.drop", "fault.dup", "fault.swap", "fault.move", "fault.misdirect", "fault.byzantine_seq", "fault.src_transient_error_with_the_foreign_bytes"},
-		Probes:     []string{"probe.full_final_chunk", "probe.full_final_plus_trailing", "probe.error_from_Decrypt", "probe.error_after_release", "probe.byz_accepted_canonical", "probe.byz_rejected", "probe.trivial_same_image", "probe.empty_final_after_full", "probe.read_with_1MiB_buffer", "probe.byz_behind_255_to_257_chunks", "probe.drained_by_io_copy"},
+		Probes:     []string{"probe.full_final_chunk", "probe.full_final_plus_trailing", "probe.error_from_Decrypt", "probe.error_after_release", "probe.byz_accepted_canonical", "probe.byz_rejected", "probe.trivial_same_image", "probe.empty_final_after_full", "probe.read_with_1MiB_buffer", "probe.byz_behind_255_to_257_chunks", "probe.drained_by_io_copy", "probe.honest_file_after_the_damaged_ones"},
 	}
 }
 
@@ -380,7 +380,20 @@ func maxInt(a, b int) int {
 	return b
 }
 
+// Execute runs the damaged cases and then lets the same identity object read the undamaged file once more: a
+// rejected file must leave nothing behind that spoils the next one.
 func (e C02) Execute(plan interface{}, c *core.Ctx) *core.Verdict {
+	var after func() *core.Verdict
+	if v := e.exec(plan, c, &after); v != nil {
+		return v
+	}
+	if after != nil {
+		return after()
+	}
+	return nil
+}
+
+func (e C02) exec(plan interface{}, c *core.Ctx, after *func() *core.Verdict) *core.Verdict {
 	p := plan.(*C02Plan)
 	spec := p.File
 	spec.Armor = false
@@ -392,6 +405,14 @@ func (e C02) Execute(plan interface{}, c *core.Ctx) *core.Verdict {
 	}
 	P := spec.Plain()
 	ids := []age.Identity{world.Identity(key)}
+	*after = func() *core.Verdict {
+		res := lib.Decrypt(seam.NewSource(F, seam.Delivery{Mode: "whole"}, nil, nil).Reader(), false, ids, lib.ReadSched{Mode: "all"}, nil)
+		c.Stats.Inc("probe.honest_file_after_the_damaged_ones")
+		if !res.Clean() || !bytes.Equal(res.Released, P) {
+			return core.Fail("C02.poisoned_next", "after the damaged images were rejected, the undamaged file read with the same identity object gives %d of %d bytes, %s", len(res.Released), len(P), res.ErrText())
+		}
+		return nil
+	}
 	deliveries := []seam.Delivery{p.Delivery, {Mode: "whole", EOFWith: true}, {Mode: "one"}}
 	if p.Prefix > 0 {
 		deliveries = deliveries[:2] // 16 MiB images: byte-at-a-time delivery is left out
